@@ -99,6 +99,7 @@ class EFLRItem:
         """Set a new origin reference (point to a different Origin)."""
 
         self._origin_reference = self._validate_origin_reference(v)
+        self.__dict__.pop('obname', None)  # the cached OBNAME bytes contain the origin reference
 
     @staticmethod
     def _validate_origin_reference(v: Union[int, None], allow_none: bool = False) -> Union[int, None]:
@@ -158,6 +159,9 @@ class EFLRItem:
 
         if isinstance(getattr(self, key, None), Attribute):
             raise RuntimeError(f"Cannot set DLIS Attribute '{key}'. Did you mean setting '{key}.value' instead?")
+
+        if key == 'name':
+            self.__dict__.pop('obname', None)  # the cached OBNAME bytes contain the name
 
         return super().__setattr__(key, value)
 
